@@ -364,6 +364,78 @@ def statics_crosscheck(model_lines):
             bad.append("history %s...: vm_compute and the extracted driver give different statics.rs texts" % l[:120])
     return len(coq), bad
 
+def _coq_tree(t):
+    """driver tree syntax (F<hex> | D[name=tree;...]) -> Gallina term; returns (term, rest)"""
+    if t[0] == "F":
+        j = 1
+        while j < len(t) and t[j] not in ";]": j += 1
+        h = t[1:j]
+        return "File %s" % coq_bytes(bytes.fromhex(h) if h else b""), t[j:]
+    assert t[:2] == "D["
+    t = t[2:]; es = []
+    while t[0] != "]":
+        j = t.index("=")
+        name = unhexs(t[:j]); term, t = _coq_tree(t[j + 1:])
+        es.append("(%s, %s)" % (coq_bytes(name), term))
+        if t[0] == ";": t = t[1:]
+    return "Dir [%s]" % "; ".join(es), t[1:]
+
+def build_crosscheck(model_lines, limit=12):
+    """the same for Model/Build.v: driver input lines `<mode> <utils> <header> <base> <tree> <fs0> <program>`; the helper
+    file is replaced by one byte (it is only copied), small scenarios only"""
+    work = os.path.join(BUILD, "xcheck"); os.makedirs(work, exist_ok=True)
+    v = ["From Ructe Require Import Nom Static Build Extract.", "Local Open Scope list_scope.",
+         "Definition digest (r : result) (h : bool) : list N :=",
+         "  (if r_ok r then [1%N] else [0%N]) ++ (if h then [1%N] else [0%N]) ++ [255%N] ++ flat_map (fun p => p ++ [10%N]) (r_writes r) ++ [255%N] ++ r_out r ++ [255%N] ++",
+         "  flat_map (fun pc => fst pc ++ [0%N] ++ snd pc ++ [1%N]) (r_fs r)."]
+    use = []
+    for l in model_lines:
+        f = l.split(" ")
+        if len(f) != 7 or len(l) - len(f[1]) > 40000: continue
+        mode = {"3": "M03", "h": "MHttp"}.get(f[0], "MNone")
+        try:
+            tree, rest = _coq_tree(f[4])
+            fs0 = "[]" if f[5] == "-" else "[" + "; ".join("(%s, %s)" % tuple(coq_bytes(unhexs(x)) for x in kv.split("=")) for kv in f[5].split(",")) + "]"
+            calls = []; cur = None
+            for c in ([] if f[6] == "-" else f[6].split(",")):
+                a = c[1:]; two = lambda: tuple(coq_bytes(unhexs(x)) for x in a.split(";"))
+                if c[0] == "c": calls.append("PCompile %s" % coq_bytes(unhexs(a))); cur = None
+                elif c == "s": cur = []; calls.append(cur)
+                elif c[0] == "f": cur.append("SAddFile %s" % coq_bytes(unhexs(a)))
+                elif c[0] == "g": cur.append("SAddFiles %s" % coq_bytes(unhexs(a)))
+                elif c[0] == "a": cur.append("SAddFileAs %s %s" % two())
+                elif c[0] == "t": cur.append("SAddFilesAs %s %s" % two())
+                elif c[0] == "d": cur.append("SAddData %s %s" % two())
+                elif c[0] == "S": cur.append("SSassRef %s %s" % two())
+                elif c[0] == "C": cur.append("SSassCss %s %s" % two())
+                else: raise ValueError(c)
+            cs = "[" + "; ".join(x if isinstance(x, str) else "PStatics [%s]" % "; ".join(x) for x in calls) + "]"
+        except Exception:
+            continue
+        args = "[85%%N] %s %s (%s) %s" % (coq_bytes(unhexs(f[2])), mode, tree, coq_bytes(unhexs(f[3])))
+        v.append("Eval vm_compute in digest (run_build_m %s %s %s) (plan_ok_m %s %s)." % (args, fs0, cs, args, cs))
+        use.append(" ".join([f[0], "55"] + f[2:]))
+        if len(use) >= limit: break
+    if not use: return 0, []
+    open(os.path.join(work, "xbuild.v"), "w").write("\n".join(v) + "\n")
+    with Lock():
+        r = subprocess.run(["coqc", "-noglob", "-Q", os.path.join(COQ, "theories"), "Ructe", "xbuild.v"], cwd=work, capture_output=True, text=True, timeout=1800)
+    if r.returncode != 0:
+        return 0, ["coqc failed on the build cross-check file: " + r.stderr[-400:]]
+    outs = re.findall(r"=\s*(\[[^\]]*\])\s*:\s*list N", r.stdout, re.S)
+    coq = [bytes(int(x) for x in re.findall(r"(\d+)%N", o)) for o in outs]
+    drv = run_model("build", use)
+    bad = []
+    if len(coq) != len(use): bad.append("%d results from Coq for %d inputs" % (len(coq), len(use)))
+    for l, c, d in zip(use, coq, drv):
+        kv = dict(x.split("=", 1) for x in d.split(" ") if "=" in x)
+        lst = lambda v0: [] if v0 in ("-", None) else v0.split(",")
+        dig = (b"\x01" if kv.get("ok") == "1" else b"\x00") + (b"\x01" if kv.get("hyp") == "1" else b"\x00") + b"\xff" + b"".join(unhexs(x) + b"\n" for x in lst(kv.get("writes"))) + b"\xff" + \
+              unhexs(kv.get("out", "-")) + b"\xff" + b"".join(unhexs(x.split("=")[0]) + b"\x00" + unhexs(x.split("=")[1]) + b"\x01" for x in lst(kv.get("fs")))
+        if dig != c:
+            bad.append("scenario %s...: vm_compute and the extracted driver give different results for run_build" % l[:160])
+    return len(coq), bad
+
 # ------------------------------------------------------------------ known findings
 
 def known_findings():
@@ -446,7 +518,7 @@ TRUSTED_BASE = [
     "Coq 8.16.1 kernel (vm_compute used for finite table checks and witnesses; native_compute not used)",
     "no axioms declared; every property theorem must print 'Closed under the global context'",
     "hand-written Gallina model of the code, tied to /repo by the correspondence check (extracted OCaml vs implementation, byte for byte) and by translator-generated tables",
-    "extraction: ExtrOcamlBasic only (Extract Inductive bool option unit list prod sumbool sumor; Extract Inlined Constant andb orb); OCaml 4.13.1; hex line driver; on every run of C02, C06, C08 and C11 a sample of the cases is also evaluated by vm_compute inside Coq and compared with what the extracted driver prints",
+    "extraction: ExtrOcamlBasic only (Extract Inductive bool option unit list prod sumbool sumor; Extract Inlined Constant andb orb); OCaml 4.13.1; hex line driver; on every run of C02, C06, C08, C11 and of the build-stage checks C10, C12, C17, C18 a sample of the cases is also evaluated by vm_compute inside Coq and compared with what the extracted driver prints",
     "translator/skeleton.py: the parsers' literals (tags, messages, delimiter sets) are read from the Rust source with regular expressions and compared with the model's, in order",
     "Rust harness (catch_unwind), Python generators/oracles, rustc 1.95.0 and installed core for compile-and-run batches",
 ]
